@@ -73,7 +73,7 @@ prop("C14",
      COMMON_ASSUMPTIONS + ["scaling coefficients read from a file are Python scalars (StructType.read returns struct.unpack results)"])
 
 prop("C08",
-     ["BL5", "BL6", "PO1", "WT1", "BL2", "NT1"],
+     ["BL5", "BL6", "PO1", "WT1", "BL2", "NT1", "MS1"],
      "Every clause is an agreement between a length field and the bytes behind it, i.e. between two expressions in the writer: string "
      "length prefix, raw-data-index length per path (k == 4 + sum of field sizes), lead-in offsets (metadata_size + data size, measured on "
      "the list that is written, written in order), declared data size vs written data (same object predicate, same string encoding, 4-byte "
